@@ -98,6 +98,19 @@ def backlog_round_trip(ctx, rule):
             plain = isinstance(v, ast.Constant) or d.startswith('self.') or (
                 isinstance(v, ast.Call) and
                 (dotted(v.func) or '').startswith('self.') and not v.args)
+            if key == 'ctx' and not plain:
+                # the data context may be saved as a copy (a seeding agent
+                # found that even a copy without `__versions` does not show:
+                # the inbound context is rebuilt from the upstream tasks
+                # when the task completes); what is required is that it IS
+                # the command's context
+                src = v
+                if isinstance(v, ast.Name):
+                    ds = [x.value for x in own_nodes(g.node)
+                          if isinstance(x, ast.Assign) and
+                          dotted(x.targets[0]) == v.id]
+                    src = ds[0] if len(ds) == 1 else v
+                plain = any(dotted(y) == 'self.ctx' for y in ast.walk(src))
             rule.check(plain, '%s.to_dict :: %r saved as it is' % (c, key),
                        'the backlog entry stores %s under %r, not the '
                        "command's own attribute" % (norm(v, 50), key),
